@@ -314,6 +314,9 @@ class SList(Model):
     """A Python list with symbolic length: elements of one scalar kind held in a z3 array.
     kind: 'int' | 'bool' | 'str' | 'float' (float = two arrays: nan flags + real values)."""
 
+    def __iter__(self):
+        raise TypeError('symbolic sequence is not iterable natively')
+
     def __init__(self, kind, length, arr=None, nanarr=None, elem_ty=None, name='l'):
         self.kind = kind
         self.len = lift(length)
